@@ -251,6 +251,27 @@ pub const ENUM_ALPHABET: [Sym; 14] = [
     Sym::Ping,
 ];
 
+/// second enumeration alphabet: answers to createStream (current, stale, unknown, refused),
+/// both activities, media on the active and on another stream; run after the fixed prefix
+/// request_connection, connect result
+pub const ENUM_ALPHABET_B: [Sym; 14] = [
+    Sym::RequestPlayback,
+    Sym::RequestPublishing,
+    Sym::Result(TxSel::Create, 0),
+    Sym::Result(TxSel::Stale, 0),
+    Sym::Result(TxSel::Unknown, 0),
+    Sym::Error(TxSel::Create),
+    Sym::StatusPlayStart,
+    Sym::StatusPublishStart,
+    Sym::StopPlayback,
+    Sym::StopPublishing,
+    Sym::Audio(MsidSel::Active),
+    Sym::Audio(MsidSel::Other),
+    Sym::PublishAudio,
+    Sym::OnMetaData(MsidSel::Other),
+];
+pub const PREFIX_B: [Sym; 2] = [Sym::RequestConnection, Sym::Result(TxSel::Connect, 1)];
+
 pub fn random_sym(rng: &mut Rng, m: &Model) -> Sym {
     if rng.chance(1, 3) {
         // progress
@@ -378,8 +399,8 @@ impl Check for C10 {
         "C10"
     }
     fn plan(&self, tier: Tier) -> Plan {
-        let mut p = Plan::new(196 + tier.pick(600_000, 60_000_000), tier.pick(35.0, 480.0));
-        p.mandatory = 196;
+        let mut p = Plan::new(392 + tier.pick(600_000, 60_000_000), tier.pick(35.0, 480.0));
+        p.mandatory = 392;
         p.cpu_budget_s = 120.0;
         p
     }
@@ -408,6 +429,32 @@ impl Check for C10 {
             out.count("enumerated_sequences", n);
             return;
         }
+        if k < 392 {
+            let l = Self::enum_len(tier);
+            let k = k - 196;
+            let a = (k / 14) as usize;
+            let b = (k % 14) as usize;
+            let rest = l - 2;
+            let total = 14usize.pow(rest as u32);
+            let mut n = 0u64;
+            for code in 0..total {
+                let mut seq: Vec<Sym> = PREFIX_B.to_vec();
+                seq.push(ENUM_ALPHABET_B[a]);
+                seq.push(ENUM_ALPHABET_B[b]);
+                let mut c = code;
+                for _ in 0..rest {
+                    seq.push(ENUM_ALPHABET_B[c % 14]);
+                    c /= 14;
+                }
+                let mut it = |i: usize, _m: &Model, _r: &mut Rng| seq.get(i).cloned();
+                if !run_history(&mut it, rng, out) {
+                    return;
+                }
+                n += 1;
+            }
+            out.count("enumerated_sequences_after_connect", n);
+            return;
+        }
         let len = match rng.below(4) {
             0 => rng.usize(5, 12),
             1 => rng.usize(40, 80),
@@ -417,7 +464,7 @@ impl Check for C10 {
         run_history(&mut it, rng, out);
     }
     fn rule(&self) -> String {
-        "histories over application calls {request_connection, request_playback, request_publishing, stop_playback, stop_publishing, publish_metadata/video/audio, send_ping_request} and server messages encoded by the independent encoder {_result / _error with the current connect, the current createStream, an already answered, a never issued, 0 and 2^32-1 transaction id, with / without / with a non-numeric stream id; onStatus Play.Start, Publish.Start, unknown codes, missing/ill-typed arguments; audio/video/onMetaData on the active stream, another stream, stream 0; ping request/response, acknowledgement, stream begin, set chunk size}. Random walks of 5-80 steps (one third of the steps biased towards progress, the rest uniform: duplicates, out-of-order and stale answers), plus all sequences of length 5 (thorough 6) over a 14-symbol reduced alphabet. After every step events, decoded emitted commands/media/pings, emitted byte count and Ok/Err are compared with model::client. distinct = hash of the (model state class, symbol) sequence.".to_string()
+        "histories over application calls {request_connection, request_playback, request_publishing, stop_playback, stop_publishing, publish_metadata/video/audio, send_ping_request} and server messages encoded by the independent encoder {_result / _error with the current connect, the current createStream, an already answered, a never issued, 0 and 2^32-1 transaction id, with / without / with a non-numeric stream id; onStatus Play.Start, Publish.Start, unknown codes, missing/ill-typed arguments; audio/video/onMetaData on the active stream, another stream, stream 0; ping request/response, acknowledgement, stream begin, set chunk size}. Random walks of 5-80 steps (one third of the steps biased towards progress, the rest uniform: duplicates, out-of-order and stale answers), plus all sequences of length 5 (thorough 6) over a 14-symbol reduced alphabet, and all sequences of the same length over a second 14-symbol alphabet (answers to createStream: current, stale, unknown, refused; both activities; media on the active and another stream) run after the fixed prefix request_connection, connect result. After every step events, decoded emitted commands/media/pings, emitted byte count and Ok/Err are compared with model::client. distinct = hash of the (model state class, symbol) sequence.".to_string()
     }
     fn assumptions(&self) -> Vec<String> {
         vec![
@@ -428,13 +475,13 @@ impl Check for C10 {
         ]
     }
     fn required_counters(&self, _tier: Tier) -> Vec<String> {
-        let mut v = vec!["histories_agreeing".to_string(), "enumerated_sequences".into(), "histories_ended_by_expected_session_error".into()];
+        let mut v = vec!["histories_agreeing".to_string(), "enumerated_sequences".into(), "enumerated_sequences_after_connect".into(), "histories_ended_by_expected_session_error".into()];
         for s in ["Disconnected", "Connected", "PlayRequested", "Playing", "PublishRequested", "Publishing"] {
             v.push(format!("final_state_{}", s));
         }
         v
     }
     fn exhaustive_part(&self, tier: Tier) -> Option<String> {
-        Some(format!("all 14^{} operation sequences of length {} over the reduced alphabet", Self::enum_len(tier), Self::enum_len(tier)))
+        Some(format!("all 14^{} operation sequences of length {} over each of two reduced alphabets (the second after a connecting prefix)", Self::enum_len(tier), Self::enum_len(tier)))
     }
 }
